@@ -261,7 +261,7 @@ def build_value(d):
 
 
 # every kind of original error: the message must render and end the text
-N_MESSAGE = 24 + 5 * 4 * 3 + 1 + 5
+N_MESSAGE = 24 + 5 * 4 * 3 + 1 + 5 + 5
 
 
 def message_cases():
@@ -303,7 +303,21 @@ def message_cases():
         # a callable that runs a nested glom, logs (stringifies) its error and lets it propagate
         ('nested-logged', {'a': {'x': {}}}, ('a', _logging_nested)),
         ('nested-plain', {'a': {'x': {}}}, ('a', _plain_nested)),
-    ] + guard_cases() + note_cases()
+    ] + guard_cases() + note_cases() + depth_cases()
+
+
+def depth_cases():
+    """values nested deeper than reprlib's default depth limit (6): the lines show the real object"""
+    n7 = [[[[[[[1]]]]]]]
+    d7 = {'a': {'b': {'c': {'d': {'e': {'f': {'g': 1}}}}}}}
+    t7 = (((((((1, 2),),),),),),)
+    return [
+        ('depth:list', n7, 'zz', [' - Target: [[[[[[[1]]]]]]]']),
+        ('depth:dict', d7, 'zz', [" - Target: {'a': {'b': {'c': {'d': {'e': {'f': {'g': 1}}}}}}}"]),
+        ('depth:tuple', t7, 'zz', [' - Target: (((((((1, 2),),),),),),)']),
+        ('depth:chain', {'a': n7}, ('a', 'zz'), [" - Target: {'a': [[[[[[[1]]]]]]]}", ' - Target: [[[[[[[1]]]]]]]']),
+        ('depth:spec', {'x': 1}, [[[[[[['x']]]]]]], [" - Spec: [[[[[[['x']]]]]]]"]),
+    ]
 
 
 def _noted(n, cls_name='GlomError'):
@@ -364,6 +378,36 @@ def _plain_nested(t):
 
 
 
+def _plain_acyclic(v, seen=None, depth=0):
+    seen = set() if seen is None else seen
+    if v is None or type(v) in (bool, int, str):
+        return True
+    if type(v) not in (list, dict, tuple) or depth > 200 or id(v) in seen:
+        return False
+    seen.add(id(v))
+    items = list(v.items()) if type(v) is dict else list(v)
+    ok = all((_plain_acyclic(k, seen, depth + 1) and _plain_acyclic(x, seen, depth + 1)) if type(v) is dict else _plain_acyclic(k, seen, depth + 1)
+             for k, *rest in ([(a, b) for a, b in items] if type(v) is dict else [(a,) for a in items]) for x in (rest or [None]))
+    seen.discard(id(v))
+    return ok
+
+
+def _ref_repr(v):
+    """Python's repr of an acyclic nest of builtin containers and atoms, dict keys in sorted order when they can be sorted
+    (reprlib's convention, which glom's trace lines follow); no depth or length limit"""
+    if type(v) is list:
+        return '[' + ', '.join(_ref_repr(x) for x in v) + ']'
+    if type(v) is tuple:
+        return '(' + ', '.join(_ref_repr(x) for x in v) + (',)' if len(v) == 1 else ')')
+    if type(v) is dict:
+        try:
+            keys = sorted(v)
+        except Exception:
+            keys = list(v)
+        return '{' + ', '.join('%s: %s' % (_ref_repr(k), _ref_repr(v[k])) for k in keys) + '}'
+    return repr(v)
+
+
 def run_message(case):
     import glom
     entry = message_cases()[case['i']]
@@ -385,7 +429,9 @@ def run_message(case):
         out['first_is_target'] = len(tl) > 2 and tl[2].startswith(' - Target: ')
         try:
             from glom.core import bbrepr
-            root = bbrepr(target).replace("\\'", "'")
+            # what the root target looks like: Python's own repr for acyclic nests of builtin containers and atoms (no depth or
+            # length limit of its own), glom's bbrepr otherwise
+            root = _ref_repr(target) if _plain_acyclic(target) else bbrepr(target).replace("\\'", "'")
             shown = tl[2][len(' - Target: '):] if len(tl) > 2 else ''
             core = re.sub(r'\.\.\.( \(len=\d+\))?$', '', shown)
             out['first_is_root'] = (shown == root) or (core != shown and root.startswith(core))
